@@ -143,9 +143,22 @@ CLAIMS = [
                 'z3/cvc5, reals for floats. Bounded: tensors up to 2x3x2; small layer shapes.',
         'design_ref': 'DESIGN.md section 4 C19',
     },
+    {
+        'property_id': 'C09',
+        'level': 'proof',
+        'technique': 'contract-based deductive verification of non-interference (2-safety) on the symbolic result of the real '
+                     'code: dependency obligations on canonical expressions plus agreement with the single-unit / single-row run',
+        'text': 'For the five weight constraints, finalize_constraints and the Dykstra projection (0-2 iterations unrolled) and for '
+                'the Lattice / PWL / Linear / KFL / ParallelCombination evaluation paths: each output element of unit u (row b) '
+                'mentions only unit u (row b) parameters and inputs, and equals what the same code returns for that unit (row) '
+                'alone - for ALL kernels and inputs.',
+        'note': 'Trusted: operator contracts (axis/broadcast semantics), z3/cvc5, reals for floats. Bounded shapes; units 2-3, '
+                'batch 2. Aggregation (ragged) and premade model graphs are not under contract.',
+        'design_ref': 'DESIGN.md section 4 C09',
+    },
 ]
 
 _PENDING = 'check not built yet in this session (planned, see DESIGN.md section 4); not claimed until its check exists'
 NOT_APPLICABLE = [
-    {'property_id': 'C%02d' % i, 'reason': _PENDING} for i in range(2, 21) if i not in (2, 4, 5, 6, 7, 12, 13, 19, 20)
+    {'property_id': 'C%02d' % i, 'reason': _PENDING} for i in range(2, 21) if i not in (2, 4, 5, 6, 7, 9, 12, 13, 19, 20)
 ]
